@@ -55,7 +55,11 @@ Range(s) == {s[i] : i \in 1..Len(s)}
 Parent(b) == BlkDef[b].parent
 RECURSIVE HeightOf(_)
 HeightOf(b) == IF b = 0 THEN BaseH ELSE 1 + HeightOf(Parent(b))
-Work(b) == HeightOf(b)                  \* every block has the same (minimum) difficulty in these scenarios
+\* proof of work of one block in units of the minimum difficulty (1 unless the scenario says otherwise: blocks
+\* after a retarget), and the cumulative work of a chain above the base tip (+ BaseH so that it compares like a height)
+BlkWork(b) == IF "work" \in DOMAIN BlkDef[b] THEN BlkDef[b].work ELSE 1
+RECURSIVE Work(_)
+Work(b) == IF b = 0 THEN BaseH ELSE BlkWork(b) + Work(Parent(b))
 
 RECURSIVE ChainTo(_)                   \* blocks above the base tip, bottom up
 ChainTo(b) == IF b = 0 THEN <<>> ELSE Append(ChainTo(Parent(b)), b)
@@ -77,7 +81,7 @@ Farthest(n, kd) ==     \* returns <<node, work below n>>
                  IF i = 1 THEN r
                  ELSE IF r[2] > F[i - 1][2] THEN r ELSE F[i - 1]
              best == F[Len(kd[n])]
-         IN <<best[1], best[2] + 1>>
+         IN <<best[1], best[2] + (IF n = 0 THEN 1 ELSE BlkWork(n))>>
 
 ----------------------------------------------------------------------------
 (* outputs and amounts *)
